@@ -527,7 +527,7 @@ def conformance(run: Run, scenarios: list[dict], traces: list[dict], per_group: 
                     drift += 1
                     if drift <= 4:
                         run.notes.append("DRIFT: the design model Protocol.tla has no behaviour matching the recorded execution of script "
-                                         + json.dumps({kk: scenarios[i].get(kk) for kk in ("kind", "ka", "retries", "rfaults", "connects", "epochs")})[:400])
+                                         + json.dumps({kk: scenarios[i].get(kk) for kk in ("kind", "ka", "retries", "rfaults", "connects", "epochs")})[:4000])
             os.remove(path)
     run.cov["conformance_scripts"] = total
     run.cov["conformance_drift"] = drift
